@@ -1,7 +1,7 @@
 """Property id -> rules, and the texts that go to MANIFEST / evidence."""
 from .rules import (
     optab, sign, role, memo, state, reord, handles, raw, domain, formats,
-    grammar, cyts, misc, hygiene, bounds)
+    grammar, cyts, misc, hygiene, bounds, dtypes)
 
 PROPS = dict()
 NOT_BUILT = dict()
@@ -14,7 +14,7 @@ GENERIC = (
 
 HYGIENE = [hygiene.r_falsy, hygiene.r_enum, hygiene.r_cache,
            hygiene.r_alias, hygiene.r_term, hygiene.r_lossy,
-           hygiene.r_shared]
+           hygiene.r_shared, hygiene.r_loopflag]
 HYGIENE_TEXT = (
     ' Repository conventions over every function reachable from the '
     'property\'s entry points: optional arguments, lookup results and '
@@ -22,7 +22,8 @@ HYGIENE_TEXT = (
     'level; nothing memoised across changes of the manager; no accessor '
     'returns a manager table or shares one between managers; terminal '
     'shortcuts keep the sign; no equality by hash, no flag tested by '
-    'identity with True/False, no signed references filed under abs().')
+    'identity with True/False, no signed references filed under abs(); flags '
+    'that decide an early exit after a loop accumulate over it.')
 
 
 def prop(pid, rules, decides, not_decided, technique, cython=False):
@@ -72,6 +73,7 @@ prop('C02', [
     domain.r_domain,
     domain.r_rebuild,
     memo.r_inval,
+    bounds.r_accept,
 ],
     'normal form steps of find_or_add on every path (validation, '
     'complement normalisation, elimination, unique-table lookup, insert '
@@ -153,8 +155,11 @@ prop('C06', [
     memo.r_inval,
     memo.r_memo,
     misc.r_visit,
+    bounds.r_accept,
 ],
-    'every insert of a node is followed by incref of each child; incref '
+    'find_or_add and swap accept exactly the arguments of their contract '
+    '(prologue interpreted over small models: no edge to a node that does '
+    'not exist); every insert of a node is followed by incref of each child; incref '
     'adds one, decref subtracts one only under the positive-count guard; '
     'every node removed by collect_garbage leaves all three tables, '
     'releases both children and queues those that drop to zero; the work '
@@ -269,8 +274,14 @@ prop('C13', [
     misc.r_args,
     misc.r_oneshot,
     role.r_quant_guard,
+    domain.r_rebuild,
+    role.r_spaces,
 ],
-    'cofactor roles and homogeneity in _image; ite(g, HIGH, LOW); AND/OR '
+    'references of the two operands of _image (different variable '
+    'spaces under vmap) are never compared with each other; '
+    'nodes are made in _image only as variable nodes (never at the top '
+    'level of operands whose variables it renames); cofactor roles and '
+    'homogeneity in _image; ite(g, HIGH, LOW); AND/OR '
     'encodings under forall.',
     'the level-shift arithmetic jv + z - iv.',
     'path-sensitive role dataflow; truth tables of ite encodings')
@@ -312,7 +323,13 @@ prop('C16', [
     domain.r_domain,
     domain.r_rebuild,
     misc.r_dddmp,
+    dtypes.r_keys,
 ],
+    'identifier domains (variable / variable ID / permutation ID / rank / '
+    'file node / reference) inferred through the dictionary '
+    'comprehensions of the loader: every lookup uses a key of the '
+    'dictionary\'s key domain, the .varinfo table matches the format, '
+    'levels passed to find_or_add are levels of the new manager; '
     'sign of complemented else-edges; THEN/ELSE of the file format reach '
     'find_or_add as HIGH/LOW; only the THEN edge is required regular.',
     'header mode semantics.',
